@@ -93,6 +93,18 @@ class Result:
                            sorted((s, v[2]) for s, v in self.viol.items())], default=str)
 
 
+MEM_LIMIT = int(os.environ.get('VERIF_WORKER_MEM', str(6 << 30)))
+
+
+def _worker_init():
+    # a runaway evaluation must end in MemoryError inside the worker, not in an OOM kill
+    import resource
+    try:
+        resource.setrlimit(resource.RLIMIT_AS, (MEM_LIMIT, MEM_LIMIT))
+    except (ValueError, OSError):
+        pass
+
+
 _WORK = None
 TASK_INIT = []      # callables run before every task: tasks must not depend on what ran before them
 
@@ -119,22 +131,28 @@ def run_tasks(work, tasks, jobs=None, chunksize=1, selftest=True, progress=None)
         it = map(_call, tasks)
         pool = None
     else:
+        import concurrent.futures as cf
         ctx = mp.get_context('fork')
-        pool = ctx.Pool(min(jobs, len(tasks)))
-        it = pool.imap(_call, tasks, chunksize)
+        # ProcessPoolExecutor (unlike multiprocessing.Pool) reports a worker that died (OOM kill,
+        # segfault) as BrokenProcessPool instead of waiting for ever
+        pool = cf.ProcessPoolExecutor(max_workers=min(jobs, len(tasks)), mp_context=ctx, initializer=_worker_init)
+        it = pool.map(_call, tasks, chunksize=chunksize)
     try:
-        for i, (st, res) in enumerate(it):
-            if st != 'ok':
-                print(f'INTERNAL-ERROR in task {tasks[i]!r}:\n{res}', file=sys.stderr)
-                raise SystemExit(2)
-            per_task.append(res.digest() if selftest else None)
-            total.merge(res)
-            if progress and (i + 1) % progress == 0:
-                print(f'  .. {i + 1}/{len(tasks)} tasks', file=sys.stderr)
+        try:
+            for i, (st, res) in enumerate(it):
+                if st != 'ok':
+                    print(f'INTERNAL-ERROR in task {tasks[i]!r}:\n{res}', file=sys.stderr)
+                    raise SystemExit(2)
+                per_task.append(res.digest() if selftest else None)
+                total.merge(res)
+                if progress and (i + 1) % progress == 0:
+                    print(f'  .. {i + 1}/{len(tasks)} tasks', file=sys.stderr)
+        except Exception as e:  # noqa - BrokenProcessPool and friends
+            print(f'INTERNAL-ERROR: worker pool failed: {e!r}', file=sys.stderr)
+            raise SystemExit(2)
     finally:
         if pool is not None:
-            pool.terminate()
-            pool.join()
+            pool.shutdown(wait=False, cancel_futures=True)
     if selftest:
         # replay self-test: first, middle and last task again, in this process
         for i in sorted({0, len(tasks) // 2, len(tasks) - 1}):
